@@ -1,7 +1,7 @@
 """C04 — optimize() is total on valid models; result valid, same interface."""
 import re
 
-MODULES = ["contracts.c03_folding", "contracts.c04_process", "contracts.c07_rewrite"]
+MODULES = ["contracts.c03_folding", "contracts.c04_process", "contracts.c07_rewrite", "contracts.c05_rules"]
 HEAD = "import sys\nsys.path.insert(0, '/verif')\nfrom replay_lib.opt_native import main\n"
 
 
@@ -18,6 +18,8 @@ def replay(ob):
         return HEAD + "main(['initializer'])\n"
     if "split_to_sequence" in n:
         return HEAD + "main(['split'])\n"
+    if "rewrite_never_raises" in n:
+        return HEAD + "main(['clip_no_type'])\n"
     if "existing_initializer" in n:
         from props.C07 import CLASH
         return CLASH
